@@ -64,3 +64,31 @@ Theorem C12_src_relay_endpoint_origin : src_relay_endpoint_iter_recognised = tru
     xrl_has XrlSkip evs = conn && negb (xrl_has XrlSend evs).
 Proof. exact src_relay_endpoint_iter_origin. Qed.
 Print Assumptions C12_src_relay_endpoint_origin.
+
+(* Round 2 (brief C12b): with an origin, one iteration of the translated loop body = one unfolding of the model's loop with an
+   origin (Replay/RlOrigin.rl_relay_zone_eps_o): from_this_endpoint = the endpoint is the origin's, from_this_zone = the target
+   zone is origin->FromZone *)
+From Icv Require Import Replay.RlHistory Replay.RlSize Replay.RlCompact Replay.RlOrigin.
+Local Open Scope Z_scope.
+
+Theorem C12_src_relay_endpoint_iter_origin_model : src_relay_endpoint_iter_recognised = true ->
+  forall (oid oz z : Z) (is_local : bool) (e : rl_ep) (r : list rl_ep) (relayed ln ld : bool) (live skipped : list Z) (wm tm : bool),
+    (wm || tm = true)%bool ->
+    let org := Some (oid, oz) in
+    rl_relay_zone_eps_o org (rl_o_from_zone org z) is_local (e :: r) relayed ln ld live skipped
+    = let '(_, relayed', ln', ld', evs) :=
+        src_relay_endpoint_iter false (rl_ep_conn e) is_local relayed ln ld true true (rl_ep_id e =? oid) (0 <=? oz) (z =? oz) wm tm in
+      rl_relay_zone_eps_o org (rl_o_from_zone org z) is_local r relayed' ln' ld'
+        (live ++ (if xrl_has XrlSend evs && negb (rl_ep_sync e) then [rl_ep_id e] else []))
+        (skipped ++ (if xrl_has XrlSkip evs then [rl_ep_id e] else [])).
+Proof. exact src_relay_endpoint_iter_o_eq. Qed.
+Print Assumptions C12_src_relay_endpoint_iter_origin_model.
+
+(* in the translated code an endpoint that is not connected leaves the iteration with no event at all: it is neither sent to
+   nor put on skippedEndpoints (whose members get SetLocalLogPosition), whatever the origin *)
+Theorem C12_src_relay_endpoint_away : src_relay_endpoint_iter_recognised = true ->
+  forall is_local relayed ln ld ho hc fe hz fz wm tm,
+    let '(_, relayed', _, _, evs) := src_relay_endpoint_iter false false is_local relayed ln ld ho hc fe hz fz wm tm in
+    evs = [] /\ relayed' = relayed.
+Proof. exact src_relay_endpoint_iter_away. Qed.
+Print Assumptions C12_src_relay_endpoint_away.
